@@ -90,6 +90,13 @@ def grid_cases(r, quick):
             kw["opt_elems"] = [(1, b"ab")]
             kw["opt_count"] = v
             out.append(("grid:opt.count=%s" % (v.hex() if isinstance(v, Raw) else v), zckref.build(**kw)))
+        # sizes congruent to -k mod 2^64: a cursor that adds them unchecked moves BACKWARDS, onto the same element again
+        for k in list(range(1, 25)) + [32, 64, 100]:
+            for cnt in (2, 1 << 20, 1 << 63, (1 << 64) - 1):
+                kw = base_kw(r, 2, 0, 2)
+                kw["opt_elems"] = [(1, ((1 << 64) - k, b""))]
+                kw["opt_count"] = cnt
+                out.append(("grid:opt.size=2^64-%d,count=%d" % (k, cnt), zckref.build(**kw)))
         # signatures
         for v in list(GRID) + raw_ints(r):
             kw = base_kw(r, 2, 0, 0)
